@@ -263,6 +263,10 @@ func (fx *Fx) ensureVar(st *State, v types.Object) {
 	// captured variable of an enclosing function, or a variable the executor has not declared: free input
 	srt := fx.c.varSort(v)
 	name := fx.c.freshConst("cap_"+v.Name(), srt)
+	if fx.c.persist == nil {
+		fx.c.persist = map[string]bool{}
+	}
+	fx.c.persist[name] = true
 	if fx.c.boxedVars[v] {
 		st.assume(fmt.Sprintf("(and (> %s 0) (<= %s %s))", name, name, st.alloc))
 	} else if ra := fx.c.rangeAssume(name, v.Type()); ra != "" {
